@@ -227,9 +227,9 @@ def plan_c08(tier, seed):
     jobs = []
     for cfg in cfgs:
         for k in SIBLING_KINDS:
-            jobs += [Job("h_compose", cfg, "asan", "siblings", k, c, ops=_scale(tier, 200, 400), cpu=300) for c in chunks(n, ck)]
+            jobs += [Job("h_compose", cfg, "asan", "siblings", k, c, ops=_scale(tier, 200, 400), cpu=_scale(tier, 40, 120)) for c in chunks(n, ck)]
         for k in ROUTING_KINDS:
-            jobs += [Job("h_compose", cfg, "asan", "routing", k, c, ops=_scale(tier, 200, 400), cpu=300) for c in chunks(n, ck)]
+            jobs += [Job("h_compose", cfg, "asan", "routing", k, c, ops=_scale(tier, 200, 400), cpu=_scale(tier, 40, 120)) for c in chunks(n, ck)]
     # try_deallocate of own memory through the history engines (refused-own clause)
     jobs += pool_jobs(cfgs, ["walk"], n // 2, 250, ck) + coll_jobs(cfgs, ["walk"], n // 4, 250, ck)
     return dict(jobs=jobs, level="exploration",
@@ -256,7 +256,7 @@ def plan_c09(tier, seed):
         for k in FORWARD_KINDS:
             jobs += [Job("h_compose", cfg, "asan", "forward", k, c, ops=_scale(tier, 200, 1000), cpu=300) for c in chunks(n, ck)]
         for k in ("tracked<fallback<fallback<leaf,leaf>,leaf>>", "fallback<tracked<leaf>,leaf>", "aligned<fallback<leaf,leaf>>"):
-            jobs += [Job("h_compose", cfg, "asan", "routing", k, c, ops=_scale(tier, 200, 400), cpu=300) for c in chunks(n, ck)]
+            jobs += [Job("h_compose", cfg, "asan", "routing", k, c, ops=_scale(tier, 200, 400), cpu=_scale(tier, 40, 120)) for c in chunks(n, ck)]
     return dict(jobs=jobs, level="exploration",
                 rule="case = (configuration, wrapper composition, index). 22 compositions of allocator_adapter / allocator_reference / "
                      "any_allocator_reference / thread_safe_allocator / aligned_allocator / tracked_allocator / binary_segregator / segregator / "
@@ -321,6 +321,8 @@ def plan_c14(tier, seed):
         for k in ("sequential-threads", "concurrent-threads"):
             jobs += [Job("h_thread", cfg, "tsan", "free", k, c, cpu=900) for c in chunks(_scale(tier, 40, 600), 10 if q else 60)]
             jobs += [Job("h_thread", cfg, "plain", "free", k, c, cpu=900) for c in chunks(_scale(tier, 40, 600), 10 if q else 60)]
+        # simultaneous adoption of unused stacks; few processes at a time so that the threads really run in parallel
+        jobs += [Job("h_thread", cfg, "plain", "free", "stampede", c, cpu=900) for c in chunks(_scale(tier, 12, 200), 3 if q else 10)]
         for k in EXIT_KINDS:
             jobs += [Job("h_thread", cfg, "plain", "exit", k, c, cpu=300) for c in chunks(_scale(tier, 6, 60), 6 if q else 20)]
     # (a) scope: nested temporary_allocator scopes leave the stack as it was (replay equality), in h_low
